@@ -5,7 +5,7 @@ from vlib.bitgen import hx
 ID = "C09"
 RULE = ("AVCDecoderConfigurationRecords built from 0..31 SPS and 0..40 (sometimes 255) PPS NALs (generated parameter sets, arbitrary "
         "bytes with SPS/PPS or foreign headers, lengths 0, 1, 2 and up to 65535), random reserved bits, versions 0..255 "
-        "sometimes, trailing extension bytes; every prefix of some records; byte mutations of valid records. "
+        "sometimes, trailing extension bytes; entries repeated verbatim later in their list (A..B..A); every prefix of some records; byte mutations of valid records. "
         "observable: construction verdict, fixed-field accessors, both iterators' items, created context (full Debug) or "
         "the error - and no panic anywhere; every profile byte x {00,10,ef,ff,random} compatibility x levels {9..12,random}; "
         "NALs of 65533..65535 bytes followed by further entries; nth/skip/count/last/size_hint agree with next().  non-trivial = construction succeeded with at least one parameter set")
@@ -66,6 +66,13 @@ def gen(tier, rng):
                 spss = [big] + spss[:2]
             else:
                 ppss = [big] + ppss[:3]
+        if i % 6 == 5:
+            # entries repeated verbatim later in their list (muxers do repeat parameter sets): A..B..A with B carrying A's id is
+            # the history in which "skip what was already seen" and "last entry wins" differ
+            for lst, cap in ((spss, 31), (ppss, 255)):
+                for _ in range(rng.choice([1, 1, 2])):
+                    if lst and len(lst) < cap:
+                        lst.insert(rng.randrange(len(lst) + 1) if rng.random() < 0.3 else len(lst), lst[rng.randrange(len(lst))])
         rec = build(rng, spss, ppss, version=1 if rng.random() < 0.95 else rng.randrange(256),
                     trailing=bytes(rng.randrange(256) for _ in range(rng.choice([0, 0, 1, 4]))))
         cases.append("avcc " + hx(rec))
@@ -130,6 +137,18 @@ def gen(tier, rng):
     # the D2 witnesses
     cases.append("avcc 0142001effe0010000")
     cases.append("avcc 0142001effe10000016701000168")
+    # valid parameter sets repeated verbatim around a different set with the same id: the context is the one obtained by parsing
+    # every entry in order (last entry with an id wins), whatever bytes were seen before
+    for i in range(40 if tier == "quick" else 600):
+        sid, pid = rng.choice([0, 1, 31]), rng.choice([0, 3, 255])
+        sa = g.gen_sps(rng, sps_id=sid, small=True)
+        sb = g.gen_sps(rng, sps_id=sid, small=True, force={"profile_idc": sa["profile_idc"], "chroma_format_idc": sa["chroma_format_idc"]})
+        na, nb = g.sps_nal(sa, rng), g.sps_nal(sb, rng)
+        pa, pb = g.pps_nal(g.gen_pps(rng, sa, pps_id=pid), rng), g.pps_nal(g.gen_pps(rng, sa, pps_id=pid), rng)
+        shape = rng.choice([(0, 1, 0), (0, 1, 1, 0), (0, 0, 1), (1, 0, 0), (0, 1, 0, 1, 0), (0, 1)])
+        spss = [(na, nb)[k] for k in (shape if i % 2 == 0 else (0,))]
+        ppss = [(pa, pb)[k] for k in (shape if i % 3 != 1 else (0, 1, 0))]
+        cases.append("avcc " + hx(build(rng, spss, ppss)))
     return cases
 
 
